@@ -14,7 +14,7 @@ from sklearn.utils.validation import check_is_fitted
 
 from .base import BaseGridder, check_fit_input, least_squares, n_1d_arrays
 from .coordinates import get_region
-from .spline import warn_weighted_exact_solution
+from .spline import n_1d_float_arrays, warn_weighted_exact_solution
 from .utils import parse_engine
 
 try:
@@ -310,13 +310,13 @@ class VectorSpline2D(BaseGridder):
 
         """
         check_is_fitted(self, ["force_"])
-        force_east, force_north = self.force_coords
-        east, north = n_1d_arrays(coordinates, n=2)
+        force_east, force_north = n_1d_float_arrays(self.force_coords)
+        east, north = n_1d_float_arrays(coordinates)
         cast = np.broadcast(*coordinates[:2])
         npoints = cast.size
         components = (
-            np.empty(npoints, dtype=np.result_type(east.dtype, "float64")),
-            np.empty(npoints, dtype=np.result_type(east.dtype, "float64")),
+            np.empty(npoints, dtype=east.dtype),
+            np.empty(npoints, dtype=east.dtype),
         )
         if parse_engine(self.engine) == "numba":
             components = predict_2d_numba(
@@ -376,8 +376,8 @@ class VectorSpline2D(BaseGridder):
             The (n_data*2, n_forces*2) Jacobian matrix.
 
         """
-        force_east, force_north = n_1d_arrays(force_coords, n=2)
-        east, north = n_1d_arrays(coordinates, n=2)
+        force_east, force_north = n_1d_float_arrays(force_coords)
+        east, north = n_1d_float_arrays(coordinates)
         jac = np.empty((east.size * 2, force_east.size * 2), dtype=dtype)
         if parse_engine(self.engine) == "numba":
             jac = jacobian_2d_numba(
